@@ -227,7 +227,7 @@ fn prop_random(t: &mut Tape, st: &mut Stats) -> Result<(), Failure> {
 
 pub fn run(args: Args) -> ! {
     let mut rep = Report::new("C10", args.tier, args.seed);
-    rep.rule = "exhaustive: every string of length <= L over a 14-class alphabet (\" ' \\ LF CR TAB space NUL ESC DEL # a é 😀), L=5 quick / 6 thorough, each pushed through all 7 value styles and 5 key styles (alone, in `k = tok`, array, inline table, header, dotted position; library and reference decoder); plus proptest-driven random long strings with quote runs. non-trivial = contains a quote, apostrophe, backslash, newline or control character; distinct by string".into();
+    rep.rule = "exhaustive: every string of length <= L over a 14-class alphabet (\" ' \\ LF CR TAB space NUL ESC DEL # a é 😀), L=5 quick / 6 thorough, each pushed through all 7 value styles and 5 key styles (alone, in `k = tok`, array, inline table, header, dotted position; library and reference decoder); plus runs of each alphabet character of 30 lengths up to 1025 around the powers of two (alone, with a prefix, a suffix, a newline or quotes around), plus proptest-driven random long strings with quote runs. non-trivial = contains a quote, apostrophe, backslash, newline or control character; distinct by string".into();
     rep.assumptions = vec![
         "the reference decoder (tomlref), calibrated on the 562 toml-test 1.0.0 fixtures".into(),
     ];
@@ -235,7 +235,7 @@ pub fn run(args: Args) -> ! {
         let j = super::load_replay(p);
         let s = j["case"]["string"].as_str().unwrap_or_else(|| fault("replay: no case.string")).to_string();
         let mut st = Stats::new();
-        if let Err(f) = check_string(&s, &mut st) {
+        if let Err(f) = guard(|| check_string(&s, &mut st)) {
             rep.violation("replay", None, &f);
         }
         rep.stats.merge(st);
@@ -247,7 +247,7 @@ pub fn run(args: Args) -> ! {
         let j = super::load_replay(&p);
         if let Some(s) = j["case"]["string"].as_str() {
             let mut st = Stats::new();
-            if let Err(f) = check_string(s, &mut st) {
+            if let Err(f) = guard(|| check_string(s, &mut st)) {
                 rep.violation("regression", None, &f);
             }
             rep.stats.merge(st);
@@ -269,6 +269,29 @@ pub fn run(args: Args) -> ! {
             break;
         }
     }
+    // long runs of one character, at the lengths where a narrow counter would wrap or saturate
+    if rep.violations.is_empty() {
+        const LENS: [usize; 30] = [3, 4, 5, 6, 7, 8, 9, 15, 16, 17, 31, 32, 33, 63, 64, 65, 127, 128, 129, 254, 255, 256, 257, 258, 511, 512, 513, 1023, 1024, 1025];
+        let mut cases: Vec<String> = vec![];
+        for c in ALPHABET {
+            for n in LENS {
+                let run: String = std::iter::repeat(c).take(n).collect();
+                cases.push(run.clone());
+                cases.push(format!("x{run}"));
+                cases.push(format!("{run}x"));
+                cases.push(format!("{run}\n{run}"));
+                cases.push(format!("\"{run}'"));
+            }
+        }
+        let (st, fail) = par_enumerate(cases.len() as u64, workers(), |i, st| {
+            st.class("runs");
+            check_string(&cases[i as usize], st)
+        });
+        rep.stats.merge(st);
+        if let Some((_, f)) = fail {
+            rep.violation("runs", None, &f);
+        }
+    }
     rep.exhaustive = Some(true);
     rep.extra.insert("exhaustive_scope".into(), json!(format!("all {total} strings of length <= {maxlen} over the 14-class alphabet")));
     if rep.violations.is_empty() {
@@ -276,7 +299,7 @@ pub fn run(args: Args) -> ! {
         let run = run_tape("C10.random", &prop_random, 200, cases, args.seed, workers());
         rep.absorb("random", run);
     }
-    for c in ["value.literal.offered", "value.ml_literal.offered", "value.basic_pretty.offered", "value.ml_basic_pretty.offered", "value.literal.refused", "value.ml_literal.refused", "key.unquoted.offered", "key.literal.offered", "key.literal.refused", "random.long"] {
+    for c in ["value.literal.offered", "value.ml_literal.offered", "value.basic_pretty.offered", "value.ml_basic_pretty.offered", "value.literal.refused", "value.ml_literal.refused", "key.unquoted.offered", "key.literal.offered", "key.literal.refused", "random.long", "runs"] {
         rep.require_class(c);
     }
     rep.finish()
